@@ -27,10 +27,7 @@ type rReq struct {
 }
 
 func (q *rReq) timeoutDur() time.Duration {
-	if q.op.TF&rTFms != 0 {
-		return time.Duration(q.op.T) * time.Millisecond
-	}
-	return time.Duration(q.op.T) * time.Second
+	return time.Duration(rDurMs(q.op.T, q.op.TF)) * time.Millisecond
 }
 
 func (q *rReq) first(res uint8) *rEv {
@@ -55,11 +52,9 @@ func (s *rSet) dur() time.Duration {
 	if s.unlimited() {
 		return rForever
 	}
-	if s.ms() {
-		return time.Duration(s.req.op.E) * time.Millisecond
-	}
-	return time.Duration(s.req.op.E) * time.Second
+	return time.Duration(rDurMs(s.req.op.E, s.req.op.EF)) * time.Millisecond
 }
+func (s *rSet) minute() bool { return !s.ms() && s.req.op.EF&rEFmin != 0 }
 func (s *rSet) unit() time.Duration {
 	if s.ms() {
 		return time.Millisecond
@@ -246,7 +241,7 @@ type rViol struct {
 
 type rInfo struct {
 	msTimeouts, msExpiries, secFired, restarts, immediateTimeouts, queueGrants, staleSets int
-	wakeChecked, wakeSlow, capacityChecked, ignorableUpdates, unitChanges                 int
+	wakeChecked, wakeSlow, capacityChecked, ignorableUpdates, unitChanges, longWatched    int
 	nontrivial                                                                            bool
 }
 
@@ -257,12 +252,15 @@ type rVerdict struct {
 	info      rInfo
 }
 
-func rUnitName(ms bool, v int) string {
-	if ms {
+func rUnitName(flag int, v int) string {
+	switch {
+	case flag&rTFms != 0:
 		if v >= MILLISECOND_QUEUE_LENGTH {
 			return "ms-over-3s"
 		}
 		return "ms"
+	case flag&rTFmin != 0:
+		return "min"
 	}
 	return "s"
 }
@@ -300,6 +298,9 @@ func rUpdateIgnorable(old, upd *rSet) bool {
 	tol := time.Millisecond
 	if !old.ms() || !upd.ms() {
 		tol = 2 * time.Second // whole seconds of the sampled clock: one unit there is up to two seconds of wall time
+	}
+	if old.minute() || upd.minute() {
+		tol = 62 * time.Second
 	}
 	return dist <= tol+5*time.Millisecond
 }
@@ -391,10 +392,13 @@ func rJudge(c *rCase, run *rRun) *rVerdict {
 		}
 		T := q.timeoutDur()
 		msT := q.op.TF&rTFms != 0
-		unit := rUnitName(msT, q.op.T)
+		unit := rUnitName(q.op.TF, q.op.T)
 		if len(q.terminal) == 0 {
 			if q.ret == nil {
 				continue
+			}
+			if rDurMs(q.op.T, q.op.TF) > rLongMs && end >= q.send.at+time.Duration(rWatchMs(rDurMs(q.op.T, q.op.TF), q.op.TF))*time.Millisecond {
+				v.info.longWatched++
 			}
 			if q.op.T == 0 {
 				add("order", "C05:rt:timeout0-not-immediate", "request #%d (%v) has Timeout 0 but got no reply inside its call", q.step, q.op)
@@ -467,7 +471,7 @@ func rJudge(c *rCase, run *rRun) *rVerdict {
 			v.info.staleSets++
 		}
 		last := h.last()
-		unit := rUnitName(last.ms(), last.req.op.E)
+		unit := rUnitName(last.req.op.EF, last.req.op.E)
 		if len(h.notices) > 1 {
 			add("order", "C06:rt:two-notices", "hold k%d id%d got %d EXPRIED notices", h.key, h.id, len(h.notices))
 		}
@@ -522,6 +526,10 @@ func rJudge(c *rCase, run *rRun) *rVerdict {
 				add("early", key, "hold k%d id%d: EXPRIED at %s, only %s after its terms were last set by request #%d (%s, %v; handed to the server at %s); earliest admissible %s after (server clock %d s stale)%s",
 					h.key, h.id, rFmt(n.at), rFmt(n.at-gov.lb.at), gov.req.step, gov.kind, gov.req.op, rFmt(gov.lb.at), rFmt(lo-gov.lb.at), stale, what)
 			}
+		}
+		if h.live() && !last.unlimited() && rDurMs(last.req.op.E, last.req.op.EF) > rLongMs &&
+			end >= last.ub.at+time.Duration(rWatchMs(rDurMs(last.req.op.E, last.req.op.EF), last.req.op.EF))*time.Millisecond {
+			v.info.longWatched++
 		}
 		// late / never
 		shortened := false
